@@ -24,6 +24,17 @@ Example veq_examples :
    veq (f64 0) (f64 (2 ^ 63)), veq (i32 1) (i64 2)) = (true, true, true, true, false).
 Proof. vm_compute. reflexivity. Qed.
 
+(* int against float is compared exactly; numpy compares after the conversion to float64, which rounds:
+   2^53 + 1 becomes 2^53.  [conv_ok] is false exactly on such pairs (the float-representability limit) *)
+Definition two53_bits : Z := 4845873199050653696.
+Example int_float_exact :
+  (veq (i64 (2 ^ 53)) (f64 two53_bits), veq (i64 (2 ^ 53 + 1)) (f64 two53_bits), f64_of_int (2 ^ 53 + 1) =? two53_bits,
+   f64_of_int (2 ^ 53 + 3) =? two53_bits + 2, f64_of_int (- (2 ^ 53 + 1)) =? two53_bits + 2 ^ 63, f64_of_int (2 ^ 63 - 1) =? 4890909195324358656,
+   conv_ok (i64 (2 ^ 53 + 1)) (f64 two53_bits), conv_ok (i64 (2 ^ 53)) (f64 two53_bits), conv_ok (i64 (2 ^ 60 + 1)) (f64 4617315517961601024),
+   veq (i64 (2 ^ 60 + 1)) (i64 (2 ^ 60 + 2)))
+  = (true, false, true, true, true, true, false, true, true, false).
+Proof. vm_compute. reflexivity. Qed.
+
 (* the n-n law is not vacuous: int32/<U2 against int64/<U4 is inside its domain, and the join matches by value *)
 Example nn_domain_inhabited : nn_domain t0 t1 [0%nat; 1%nat] [0%nat; 1%nat].
 Proof.
